@@ -499,6 +499,14 @@ def explicit_cases():
         cli(input="wav", audio=dflt, win=[20, 500, 30, False, False],
             opts={"dflt_n": True, "dflt_m": True, "dflt_s": True, "dflt_a": True, "dflt_e": True}),
         cli(input="stdin_pipe", opts={"time_format": "%I", "a_frac": True}),
+        # forty one-window events on a 0.1 s grid, every field printed with the truncating formats: start, end and
+        # duration are three different floats (0.7 + 0.1 is not 0.8), each must be rendered from its own value
+        cli(input="raw", audio={"sr": 10, "sw": 2, "ch": 1, "B": 1, "pat": "10" * 40 + "0110111", "tail": [0, 0], "al": 500, "aq": 1, "salt": 6, "uc": None},
+            win=[1, 3, 0, False, False], opts={"printf": "{id} {start} {end} {duration}", "time_format": "%I", "explicit_fmt": True}),
+        cli(input="wav", audio={"sr": 10, "sw": 2, "ch": 1, "B": 1, "pat": "110" * 30, "tail": [0, 0], "al": 500, "aq": 1, "salt": 7, "uc": None},
+            win=[1, 3, 0, True, False], opts={"printf": "{duration}|{end}|{start}", "time_format": "%h:%m:%s.%i"}),
+        cli(input="stdin", audio={"sr": 100, "sw": 2, "ch": 1, "B": 3, "pat": "1101" * 25, "tail": [1, 1], "al": 500, "aq": 1, "salt": 8, "uc": None},
+            win=[1, 2, 0, False, False], opts={"printf": "{id}:{duration}", "time_format": "%s.%i (%h h %m m)", "explicit_fmt": True, "a_frac": True}),
         cli(input="stdin", audio={"sr": 16000, "sw": 2, "ch": 2, "B": 20000, "pat": "0110", "tail": [7, 0], "al": 3000, "aq": 0, "salt": 2, "uc": None},
             win=[1, 3, 0, False, False], opts={"explicit_fmt": True}),
         cli(input="stdin_pipe", audio={"sr": 16000, "sw": 4, "ch": 1, "B": 17000, "pat": "0101", "tail": [0, 0], "al": 3000, "aq": 0, "salt": 3, "uc": None},
